@@ -23,6 +23,7 @@ func init() {
 		},
 		Run: runC25,
 		Controls: []Control{
+			{Name: "ended-fsm-removes-itself-before-signalling", File: "protocols/bgp/server/fsm.go", Old: "\t\t\tfsm.done()\n\t\t\tfsm.peer.removeFSM(fsm)\n", New: "\t\t\tfsm.peer.removeFSM(fsm)\n", Expect: "ended-signal-before-locks"},
 			{Name: "register-leaks-lock-at-end-of-life", File: "routingtable/client_manager.go", Old: "\tif c.endOfLife {\n\t\tc.mu.Unlock()\n\t\treturn\n\t}\n\n\tc.clients[client] = opt", New: "\tif c.endOfLife {\n\t\treturn\n\t}\n\n\tc.clients[client] = opt", Expect: "lock-released-on-every-exit"},
 			{Name: "refresh-callback-locks-again", File: "routingtable/adjRIBOut/adj_rib_out.go", Old: "func (a *AdjRIBOut) removePathsForPrefix(pfx *bnet.Prefix) bool {\n\tr := a.rt.Get(pfx)\n", New: "func (a *AdjRIBOut) removePathsForPrefix(pfx *bnet.Prefix) bool {\n\ta.mu.Lock()\n\tr := a.rt.Get(pfx)\n\ta.mu.Unlock()\n", Expect: "no-reentry-through-callback"},
 			{Name: "stop-sends-under-list-lock", File: "protocols/bgp/server/peer.go", Old: "\tp.fsmsMu.Unlock()\n\n\tfor _, fsm := range fsms {\n\t\tfsm.sendEvent(ManualStop)\n\t}\n", New: "\tfor _, fsm := range fsms {\n\t\tfsm.sendEvent(ManualStop)\n\t}\n\tp.fsmsMu.Unlock()\n", Expect: "no-blocking-send-under-needed-lock"},
@@ -39,6 +40,7 @@ func c25Scope(f *core.Fn) bool {
 }
 
 func runC25(c *core.Ctx) {
+	endedSignalBeforeLocks(c, "ended-signal-before-locks")
 	n := lockRules(c, c25Scope, 25)
 	c.Check(n >= 1, "no-reentry-through-callback", "calls that pass the locked receiver to a callee", token.NoPos, "none found: the rule matches nothing (AdjRIBOut.ReplaceFilterChain → LocRIB.RefreshClient(a) was the confirmed instance)")
 }
